@@ -4,6 +4,7 @@
 From Coq Require Import List Bool NArith ZArith Permutation.
 Import ListNotations.
 From BioVerif Require Import Model.ISISSpeaker Proofs.ISISSpeakerProofs.
+(* C = Model.ISISCodec, A = Model.Adj, L = Model.LSDB (aliases from the proofs file) *)
 From BioVerif Require Spec.ISISCodecSpec.
 Open Scope N_scope.
 
